@@ -27,6 +27,7 @@
    tdvp1_step / tdvp2_step extract it from the store itself (tree_of).  Definitions only. *)
 From Coq Require Import List Arith Bool ZArith.
 From PTN Require Import TTN.Store TTN.Canon Tree.RTree Tree.Nav Tree.UpdatePath Tree.CachePath Sched.TDVP.
+From PTN Require TEBD.Trotter.     (* legs_before_combination (shared with the two-site gate of TEBD) *)
 Import ListNotations.
 
 (* ---- the rooted ordered tree of a store -------------------------------------------------------------- *)
@@ -184,6 +185,99 @@ Definition tdvp_case (lk : id -> id -> id) (tmp : id) (kind : nat) (ops : list o
    forallb (fun b => b) oks,
    match tdvp_init lk tmp t (s0, None) with
    | Some cs1 => (Some (cobs cs1), steps_obs lk tmp kind t cs1 k)
+   | None => (None, [])
+   end,
+   first_of t).
+
+(* ==== two-site TDVP (secondordertwosite.py, twositetdvp.py) ============================================================ *)
+(* TwoSite a b = _update_two_site_nodes(a, b): legs_before_combination(a, b); contract_nodes(a, b, "TwoSite_a_contr_b");
+   the contracted tensor is read and replaced by the evolved one (an opaque tensor of the same shape);
+   split_node_svd(new, u_legs, v_legs, u_identifier = a, v_identifier = b, svd_params); orthogonality_center_id = b.
+   The SVD is truncated: the bond dimension is data.  It is an argument (`bd`, read off the real run by the harness);
+   the split is recorded with kind 4 = "truncated SVD: first factor U (an isometry by the kernel contract), second
+   factor S Vh" (split_nodes treats every kind >= 2 as a replacement with the given bond dimension).
+   SiteBack n = _single_site_backwards_update = _update_site with a negative factor: the same store operation as Site. *)
+Definition two_site_update (s : store) (a b new : id) (bd : nat) : option store :=
+  match Trotter.legs_before_combination s a b with
+  | Some (u, v) =>
+      match contract_nodes s a b new with
+      | Some s1 =>
+          match site_update s1 new with
+          | Some s2 => split_nodes s2 new u v a b 4 Keep bd
+          | None => None
+          end
+      | None => None
+      end
+  | None => None
+  end.
+
+(* the state of a two-site step: the store with its recorded centre and the bond dimensions still to be consumed *)
+Definition ev_step2 (lk tw : id -> id -> id) (tmp : id) (st : cstore * list nat) (e : ev) : option (cstore * list nat) :=
+  let '(cs, bds) := st in
+  match e with
+  | TwoSite a b _ =>
+      match bds with
+      | bd :: rest => match two_site_update (fst cs) a b (tw a b) bd with
+                      | Some s' => Some ((s', Some b), rest)
+                      | None => None
+                      end
+      | [] => None
+      end
+  | _ => match ev_step lk tmp cs e with Some cs' => Some (cs', bds) | None => None end
+  end.
+
+Definition ev_fold2 (lk tw : id -> id -> id) (tmp : id) (acc0 : option (cstore * list nat)) (e : ev) :=
+  match acc0 with Some st => ev_step2 lk tw tmp st e | None => None end.
+
+Definition tdvp_run2 (lk tw : id -> id -> id) (tmp : id) (st : cstore * list nat) (tr : list ev) : option (cstore * list nat) :=
+  fold_left (ev_fold2 lk tw tmp) tr (Some st).
+
+Definition tdvp2s_step_t (lk tw : id -> id -> id) (tmp : id) (t : rtree) (cs : cstore) (bds : list nat) : option (cstore * list nat) :=
+  match trace2s t with Some tr => tdvp_run2 lk tw tmp (cs, bds) tr | None => None end.
+
+(* isometry attribute with SVD factors: every non-centre node is a single atom that is the first factor of a QR call
+   (kind 0) or of a truncated SVD (kind 4) whose bond sits on the node's leg toward the centre *)
+Definition iso_node2 (s : store) (d : list (id * nat)) (kn : id * node) : bool :=
+  let '(k, nd) := kn in
+  match aget k (tensors s), toward s d nd with
+  | Some t, Some nb =>
+      match atoms t, neighbour_index nd nb with
+      | [a], Some leg =>
+          existsb (fun df => Nat.eqb (kq df) a && (Nat.eqb (kkind df) 0 || Nat.eqb (kkind df) 4)
+                             && Nat.eqb (kbond df) (nth (nth leg (perm nd) 0) (axes t) 0)) (defs s)
+      | _, _ => false
+      end
+  | _, _ => false
+  end.
+Definition iso_check2 (cs : cstore) : bool :=
+  match snd cs with
+  | None => false
+  | Some c =>
+      let s := fst cs in
+      let d := Canon.distance_to_node s c in
+      forallb (fun kn => Nat.eqb (fst kn) c || iso_node2 s d kn) (nodes s)
+  end.
+
+Definition cobs2 (cs : cstore) :=
+  (observe (fst cs), match snd cs with Some c => [c] | None => [] end, iso_check2 cs).
+
+(* bss: the bond dimensions of the consecutive steps *)
+Fixpoint steps_obs2 (lk tw : id -> id -> id) (tmp : id) (t : rtree) (cs : cstore) (bss : list (list nat)) :=
+  match bss with
+  | [] => []
+  | bds :: rest =>
+      match tdvp2s_step_t lk tw tmp t cs bds with
+      | Some (cs', left) => Some (cobs2 cs', length left) :: steps_obs2 lk tw tmp t cs' rest
+      | None => [None]
+      end
+  end.
+
+Definition tdvp2s_case (lk tw : id -> id -> id) (tmp : id) (ops : list op) (t : rtree) (bss : list (list nat)) :=
+  let '(s0, oks) := Store.run empty_store ops in
+  (match tree_of s0 with Some t' => rtree_eqb t' t | None => false end,
+   forallb (fun b => b) oks,
+   match tdvp_init lk tmp t (s0, None) with
+   | Some cs1 => (Some (cobs2 cs1), steps_obs2 lk tw tmp t cs1 bss)
    | None => (None, [])
    end,
    first_of t).
